@@ -70,7 +70,7 @@ func propC04(r *Run) {
 			w.nw.ManualFor = func(target string) bool { return target == a.saslPath }
 		}
 		users := sortedKeysA(stored)
-		for k := 0; k < r.Choose("nmgmt", 3); k++ {
+		for k, kN := 0, r.Choose("nmgmt", 3); k < kN; k++ {
 			u := users[r.Choose("mgmt-user", len(users))]
 			pw := c04Passwords[r.Choose("mgmt-pw", len(c04Passwords))]
 			c := &Call{Kind: "update", Via: "agent", Agent: a.idx, User: u, PW: pw}
@@ -83,10 +83,35 @@ func propC04(r *Run) {
 		cfgPath := a.cfgPath
 		nprobe := 3 + r.Choose("nprobes", 8)
 		var trace []string
+		lastProbed := users[0]
+		prevStored := map[string]string{}
 		for k := 0; k < nprobe; k++ {
+			if k > 0 && r.Choose("change-between-probes", 4) == 0 {
+				// a password change between two rounds of logins (possibly within the same second
+				// as the previous write): the next round must see the new state on every frontend
+				cu := users[r.Choose("mgmt-user", len(users))]
+				npw := c04Passwords[r.Choose("mgmt-pw", len(c04Passwords))]
+				c := &Call{Kind: "update", Via: "agent", Agent: a.idx, User: cu, PW: npw}
+				w.addClient([]*Call{c})
+				w.settle(nil)
+				if c.OK {
+					prevStored[cu] = stored[cu]
+					stored[cu] = npw
+				}
+				r.Logf("#%d password of %s changed to %s -> ok=%v", k, simrt.Q(cu), simrt.Q(npw), c.OK)
+			}
 			u := users[r.Choose("probe-user", len(users))]
+			if k > 0 && r.Choose("probe-same-user-again", 3) == 0 {
+				u = lastProbed
+			}
+			lastProbed = u
 			var pw string
-			switch r.Choose("probe-pw-kind", 4) {
+			switch r.Choose("probe-pw-kind", 5) {
+			case 4:
+				pw = prevStored[u] // the password before the last change (the current one if there was none)
+				if pw == "" {
+					pw = stored[u]
+				}
 			case 0, 1:
 				pw = stored[u]
 			case 2:
@@ -198,9 +223,9 @@ func propC04(r *Run) {
 			want bool
 		}
 		var exps []expect
-		for i := 0; i < 2+r.Choose("nconc", 6); i++ {
+		for i, iN := 0, 2+r.Choose("nconc", 6); i < iN; i++ {
 			var plan []*Call
-			for k := 0; k < 1+r.Choose("nconc-calls", 2); k++ {
+			for k, kN := 0, 1+r.Choose("nconc-calls", 2); k < kN; k++ {
 				u := users[r.Choose("conc-user", len(users))]
 				pw := stored[u]
 				if r.Choose("conc-right", 2) == 0 {
@@ -225,6 +250,21 @@ func propC04(r *Run) {
 			if len(plan) > 0 {
 				w.addClient(plan)
 			}
+		}
+		// administrators promote and demote users meanwhile: the file is renamed, the password is
+		// not touched, so every verdict stays what it was
+		if r.Choose("conc-set-admin", 2) == 1 {
+			for i, iN := 0, 1+r.Choose("conc-set-admin-clients", 2); i < iN; i++ {
+				var plan []*Call
+				for k, kN := 0, 2+r.Choose("conc-set-admin-calls", 4); k < kN; k++ {
+					plan = append(plan, &Call{Kind: "set-admin", Via: "agent", Agent: a.idx, User: users[r.Choose("conc-set-admin-user", len(users))], Admin: r.Choose("conc-admin", 2) == 1})
+				}
+				w.addClient(plan)
+			}
+			if r.Choose("conc-fs-yields", 2) == 1 {
+				w.fsYields()
+			}
+			r.Count("probe:logins-racing-set-admin")
 		}
 		lo := loopOpts{maxSteps: 3000, wClient: 3, wLoop: 3}
 		if r.Choose("slow-hashing", 3) == 0 {
